@@ -73,6 +73,19 @@ CLAIMED = {
    note=TRUST + "Double-accidental roots are covered by the correspondence only (sampled), as the property states. Two defects repaired "
         "by fix: commits (198944d ordinals beyond the third inversion, e53f2c1 M11).",
    design="§4 C07"),
+ "C08": dict(
+   text="Whole-table kernel theorems: triads/sevenths are stacked thirds in all 30 keys; every function name and numeral alias "
+        "indexes the row its name denotes (independent roman/function-name reading); determine is the inverse of to_chords on "
+        "every diatonic triad and seventh of the 15 major keys in both forms; substitution cores per numeral (minor-for-major "
+        "+3, major-for-minor +9, diminished cycle +3/+6/+9, harmonic substitutes share two notes in every major key, all rule "
+        "outputs well-formed). Unbounded: parse_spec / toChords_spec / parse_format_id for any number of prefix accidentals, "
+        "either case, any suffix the scanner stops at; shift_spec (each accidental = one semitone on every note, same letter); "
+        "minor_for_major_spec / major_for_minor_spec for any prefix. Function table and all progressions.py tables regenerated "
+        "from the source (Tie A); 22k differential cases incl. caller's-list-unchanged checks (Tie B).",
+   note=TRUST + "'Leaves the caller's progression unchanged' is a correspondence clause here (deep copy compared afterwards); the "
+        "aliasing model is C15's. substitute_diminished_for_dominant is tied by correspondence only (the property promises "
+        "well-formed numerals). Two defects repaired by fix: commits (f72d29c vii7, 5e2170b substitute aliasing).",
+   design="§4 C08"),
  "C04": dict(
    text="Whole-table kernel evaluation (decide +kernel) of everything the statement says about each of the 30 keys, the 15 "
         "relative couples, the key objects and signature<->key inversion; unbounded theorems for rejections (any string, any "
